@@ -37,6 +37,8 @@ FirstSet(H, c, f) == LET ks == SelectSeq(SpecMRO(H, c), LAMBDA k : H[k][f].set) 
 KeyOf(H, c)      == FirstSet(H, c, "key")
 OverflowOf(H, c) == FirstSet(H, c, "overflow")
 HasPost(H, c)    == \E j \in 1..Len(H[c].mro) : H[H[c].mro[j]].post
+\* the hook that runs is the one ordinary attribute lookup finds on the instance: the nearest class of the MRO defining it (plain subclasses included)
+PostOwner(H, c)  == H[c].mro[CHOOSE j \in 1..Len(H[c].mro) : H[H[c].mro[j]].post /\ \A m \in 1..(j - 1) : ~H[H[c].mro[m]].post]
 InitAttrs(H, c)  == {a \in Managed(H, c) : InitFlag(H, c, a)} \ {OverflowOf(H, c)}
 ParamNames(H, k) == {H[k].params[j].n : j \in 1..Len(H[k].params)}
 Param(H, k, n)   == H[k].params[CHOOSE j \in 1..Len(H[k].params) : H[k].params[j].n = n]
